@@ -219,6 +219,13 @@ def run(ctx):
         o.D = 2000          # the default depth limit is 1024 as well
         deep.append({"opts": o, "script": sl, "kind": "pg", "variant": "normal", "deep": dp})
     batches.append(("normal", deep))
+    # corpus of past disagreements (run in every variant): handler / fork before any thread data exists
+    for v in variants:
+        cc = []
+        for sl in (["T 1000", "FLUSH", "END"], ["T 1000", "FORK", "END"], ["T 1000", "FLUSH", "E pg 1", "T 1005", "X", "END"],
+                   ["T 1000", "FORK", "E cyg 1", "T 1005", "X", "END"]):
+            cc.append({"opts": mcgen.Opts(), "script": sl, "kind": "pg", "variant": v})
+        batches.append((v, cc))
 
     for v, cases in batches:
         fast = "fast" in v
@@ -277,7 +284,7 @@ def run(ctx):
                     firsts = next((i for i, (a, b) in enumerate(zip(impl_stream, exp)) if a != b), min(len(impl_stream), len(exp)))
                     C.violation(ctx, "case%d" % total, {
                         "kind": "property-violated-on-implementation" if bad else "model-code-disagreement",
-                        "what": bad, "variant": v, "env": mcgen.to_env(c["opts"]),
+                        "what": bad, "variant": v, "env": mcgen.to_env(c["opts"]), "max_stack": c["opts"].max_stack,
                         "script": c["script"] if len(c["script"]) < 400 else c["script"][:40] + ["... %d lines" % len(c["script"])],
                         "first_stream_difference": {"index": firsts, "impl": impl_stream[firsts:firsts + 3], "expected": exp[firsts:firsts + 3]},
                         "first_line_difference": None if first is None else {"op": c["script"][first], "line": first, "impl": c["impl_cmp"][first][-300:], "model": c["model_cmp"][first][-300:]},
@@ -302,5 +309,41 @@ def run(ctx):
 
 
 def replay(ctx, path):
-    print(json.dumps(json.load(open(path)), indent=1))
-    return 0
+    """Re-run the stored case on the current tree: model vs libmcount, and the monitor."""
+    d = json.load(open(path))
+    print(json.dumps({k: d[k] for k in ("kind", "what", "variant", "theorem") if k in d}, indent=1))
+    if "script" not in d or any(l.startswith("...") for l in d["script"]):
+        print("replay: no complete script stored (proof or truncated case); re-run the check itself")
+        return 0
+    ctx.snapshot()
+    layout2lean.main(ctx.src, ctx.scratch)
+    consts2lean.main(ctx.src, ctx.scratch)
+    C.lake_build(["uvmodel"])
+    v = d.get("variant", "normal")
+    exe, log = h1.build(ctx, v)
+    if not exe:
+        print("replay: harness build failed\n" + log[-2000:])
+        return 1
+    sizes = mcheck.sym_sizes(exe)
+    o = mcgen.Opts()
+    o.max_stack = d.get("max_stack")
+    if o.max_stack is None and "UFTRACE_MAX_STACK" in d.get("env", {}):
+        o.max_stack = int(d["env"]["UFTRACE_MAX_STACK"])
+    c = {"opts": o, "script": d["script"]}
+    mcheck.run_cases(ctx, exe, sizes, [c], v.startswith("fast"))
+    ms = o.max_stack or 1024
+    impl_stream = mcheck.stream(c["impl"])
+    if "FORK" in c["script"]:
+        impl_stream = mcheck.stream(c["impl"][c["script"].index("FORK"):])
+    exp = expected_stream(c["script"], ms)
+    rc = 0
+    for i, (a, b) in enumerate(zip(c["impl_cmp"], c["model_cmp"])):
+        if a != b:
+            print("line %d (%s): impl  %s\n              model %s" % (i, c["script"][i], a[-300:], b[-300:]))
+            rc = 1
+            break
+    if impl_stream != exp or c["bad_obs"]:
+        print("monitor: recorded stream differs from the executed history: %s" % (structural(impl_stream) or c["bad_obs"][:1]))
+        rc = 1
+    print("replay: %s" % ("reproduced" if rc else "model and implementation agree and the monitor holds on the current tree"))
+    return rc
